@@ -117,6 +117,22 @@ func mgExpr(e ast.Expr) string {
 		if len(v.Elts) == 0 && v.Type != nil {
 			return "(EId " + mgCoqString(typeText(v.Type)+"{}") + ")"
 		}
+		// a struct literal with every field named: T{f: x, g: y}  ->  ECall (EId "T{:}") [EBin ":" (EId "f") x; ...]
+		if id, ok := v.Type.(*ast.Ident); ok && len(v.Elts) > 0 {
+			elts := make([]string, len(v.Elts))
+			keyed := true
+			for i, x := range v.Elts {
+				kv, isKV := x.(*ast.KeyValueExpr)
+				if !isKV {
+					keyed = false
+					break
+				}
+				elts[i] = "(EBin " + mgCoqString(":") + " " + mgExpr(kv.Key) + " " + mgExpr(kv.Value) + ")"
+			}
+			if keyed {
+				return "(ECall (EId " + mgCoqString(id.Name+"{:}") + ") " + mgList(elts) + ")"
+			}
+		}
 		if at, ok := v.Type.(*ast.ArrayType); ok && at.Len == nil {
 			elts := make([]string, len(v.Elts))
 			plain := true
